@@ -351,12 +351,15 @@ type recorder struct {
 	proj    *projector
 	rng     *rand.Rand
 	lines   map[*chain.Chain][]*line
+	order   []*chain.Chain // chains in creation order (deterministic iteration)
 	nextID  int
 	nReload int
 	nBranch int
 	sum     summary
 	cfg     chainCfg
 	maxRel  int
+	// extraFlags are added to the flags of the next logged point
+	extraFlags []string
 }
 
 type summary struct {
@@ -387,7 +390,7 @@ func (r *recorder) emit(ev map[string]interface{}) {
 func (r *recorder) logCtx(l *line, sc *chain.StateCtx, n0 int, kind string, o outcome, fs outcome, chainRoot string, preSlot common.Slot, preFork chain.Fork, preN int, deplook []map[string]int) {
 	id := r.nextID
 	r.nextID++
-	side := kind == "slot"
+	side := kind == "slot" || kind == "recheck"
 	ev := map[string]interface{}{"ev": "Ctx", "id": id, "line": l.name, "kind": kind, "out": o.Out, "root": o.Root,
 		"chainroot": chainRoot, "fs": fs, "slot": int(sc.Slot()), "fork": sc.Fork().String(), "n0": n0}
 	ev["deplook"], ev["pren"] = deplook, preN
@@ -453,6 +456,8 @@ func (r *recorder) logCtx(l *line, sc *chain.StateCtx, n0 int, kind string, o ou
 	if sc.Fork() != preFork {
 		flags = append(flags, "upgrade:"+sc.Fork().String())
 	}
+	flags = append(flags, r.extraFlags...)
+	r.extraFlags = nil
 	ev["flags"] = flags
 	for _, f := range flags {
 		r.sum.Flags[f]++
@@ -493,6 +498,7 @@ func (r *recorder) advance(l *line, st step, chainRoot string) {
 	// how the long-lived context answers for the depositors of the block, before the block
 	deplook := r.proj.depositLookups(l.sc, st.env)
 	// the long-lived line
+	parent, parentN0 := l.sc, l.n0
 	next := clientCopy(l.sc)
 	o := run(next, st)
 	if o.Out == "ok" {
@@ -510,7 +516,33 @@ func (r *recorder) advance(l *line, st step, chainRoot string) {
 	if o.Out != "ok" {
 		l.dead = true
 		r.sum.Dead = append(r.sum.Dead, fmt.Sprintf("%s@%d: %s", l.name, preSlot, o.err))
+		return
 	}
+	if l.peer != nil {
+		return
+	}
+	// "mutate one copy, observe the others": the step ran on a Clone of the parent's context, which shares every
+	// slice and map with it. The parent head (a client keeps it: other blocks may build on it) and the heads of the
+	// sibling lines must still carry the context of THEIR state.
+	changed := sc.Spec.SlotToEpoch(sc.Slot()) != sc.Spec.SlotToEpoch(preSlot) || int(sc.ValidatorCount()) != preN || sc.Fork() != preFork
+	if changed && parent != nil {
+		r.recheck(l, parent, parentN0, "recheck-parent")
+	}
+	for _, ch := range r.order {
+		for _, o := range r.lines[ch] {
+			if o != l && o.peer == nil && !o.dead {
+				r.recheck(o, o.sc, o.n0, "recheck-sibling")
+			}
+		}
+	}
+}
+
+// recheck re-observes a (state, context) pair that was NOT stepped: its context must be unaffected by what happened
+// to copies of it.
+func (r *recorder) recheck(l *line, sc *chain.StateCtx, n0 int, flag string) {
+	o := outcome{Out: "ok", Root: short(sc.StateRoot())}
+	r.extraFlags = []string{flag}
+	r.logCtx(l, sc, n0, "recheck", o, o, o.Root, sc.Slot(), sc.Fork(), int(sc.ValidatorCount()), []map[string]int{})
 }
 
 // sideSlots advances a client copy of the line slot by slot up to the step's target (for a block: up to its
@@ -602,7 +634,13 @@ func (r *recorder) branch(c *chain.Chain) *chain.Chain {
 	main := r.lines[c][0]
 	bl := &line{name: fmt.Sprintf("branch%d", r.nBranch), sc: clientCopy(main.sc), n0: main.n0}
 	r.lines[cb] = []*line{bl}
+	r.order = append(r.order, cb)
 	r.sum.Branches++
+	if n, c := len(main.sc.Epc.EffectiveBalances), cap(main.sc.Epc.EffectiveBalances); n < c {
+		r.sum.Flags["clone-eff-len-lt-cap"]++
+	} else {
+		r.sum.Flags["clone-eff-len-eq-cap"]++
+	}
 	return cb
 }
 
@@ -654,6 +692,10 @@ func chainList(tier string, seed int64) []chainCfg {
 		add("S1", [4]int{1, 2, 3, 4}, 10, "branch-same-deposits", 2)
 		add("S4", [4]int{2, 2, 4, 4}, 14, "branch-same-deposits", 1)
 		add("S1", [4]int{1, 2, 3, 4}, 8, "branch-other-deposits", 0)
+		add("S1", [4]int{0, 1, 1, 2}, 4, "fork-deposits-lt-cap", 3)
+		add("S1", [4]int{-1, -1, -1, -1}, 4, "fork-deposits-lt-cap", 3)
+		add("S1", [4]int{0, 0, 0, 0}, 4, "fork-deposits-eq-cap", 2)
+		add("S1", [4]int{0, 0, 1, 1}, 4, "fork-deposit-vs-rotate", 3)
 		add("minimal", [4]int{1, 2, 2, 3}, 4, "", 2)
 		for _, n := range []string{"deposit-mix", "fork-boundary-gaps", "sync-patterns", "exit-queue", "mass-slashing", "leak-with-ejections"} {
 			corner(n)
@@ -682,6 +724,11 @@ func chainList(tier string, seed int64) []chainCfg {
 	}
 	add("S1", [4]int{1, 2, 3, 4}, 8, "branch-other-deposits", 0)
 	add("S4", [4]int{0, 0, 0, 0}, 10, "branch-other-deposits", 0)
+	for _, f := range [][4]int{{-1, -1, -1, -1}, {0, -1, -1, -1}, {0, 0, -1, -1}, {0, 0, 0, -1}, {0, 0, 0, 0}, {0, 1, 1, 2}, {1, 1, 2, 2}} {
+		add("S1", f, 4, "fork-deposits-lt-cap", 3)
+		add("S1", f, 4, "fork-deposits-eq-cap", 2)
+		add("S1", f, 4, "fork-deposit-vs-rotate", 3)
+	}
 	add("minimal", [4]int{0, 0, 1, 2}, 5, "", 2)
 	add("minimal", [4]int{1, 2, 2, 3}, 6, "", 3)
 	for _, ns := range chain.CornerScenarios() {
@@ -741,6 +788,14 @@ func record(cfg chainCfg, f *os.File) {
 		}
 	} else {
 		spec := chain.NewSpec(cfg.Preset, sched(cfg.Forks))
+		if isAliasScript(cfg.Script) {
+			// one eth1 voting period = one epoch of 8 slots: two forks of one epoch can then each adopt their own
+			// eth1 data (3 votes each on the common prefix, 2 more on each fork) and include DIFFERENT deposits
+			// while their contexts still share what Clone shares
+			spec.SLOTS_PER_EPOCH = 8
+			spec.EPOCHS_PER_ETH1_VOTING_PERIOD = 1
+			spec.SLOTS_PER_HISTORICAL_ROOT = 16
+		}
 		g := chain.GenesisOpts{Validators: cfg.Validators}
 		for i := 0; i < cfg.Pending; i++ {
 			g.PendingDeposits = append(g.PendingDeposits, chain.DepositSpec{Key: chain.KeyID(cfg.Validators + i)})
@@ -770,6 +825,7 @@ func record(cfg chainCfg, f *os.File) {
 	// the main line: the genesis state with the context zrnt's genesis built (long-lived from here on)
 	main := &line{name: "main", sc: clientCopy(c.StateCtx), n0: int(c.ValidatorCount())}
 	r.lines[c] = []*line{main}
+	r.order = append(r.order, c)
 	c.Observer = r
 	// genesis itself is a point of the chain
 	{
@@ -837,6 +893,8 @@ func record(cfg chainCfg, f *os.File) {
 			}
 			runSteps(c, rest)
 		}
+	case "fork-deposits-lt-cap", "fork-deposits-eq-cap", "fork-deposit-vs-rotate":
+		r.aliasScript(c, cfg)
 	case "branch-other-deposits":
 		// the branch sees another deposit (other pubkey at the next validator index) than main:
 		// the shared pubkey cache has to fork out
@@ -861,6 +919,95 @@ func record(cfg chainCfg, f *os.File) {
 		}
 	}
 	_ = json.NewEncoder(os.Stdout).Encode(r.sum)
+}
+
+func isAliasScript(s string) bool {
+	return s == "fork-deposits-lt-cap" || s == "fork-deposits-eq-cap" || s == "fork-deposit-vs-rotate"
+}
+
+// aliasScript: two forks of one state that each include a deposit of a new validator with a DIFFERENT amount while
+// their contexts are Clones of one context (8 slots per epoch, eth1 voting period of one epoch):
+//
+//	epoch 0   slot 1 includes the first two pending deposits; slots 2..7 stay empty
+//	epoch 1   slot 8 includes the third pending deposit if there is one ("lt-cap": the cached balances were
+//	          appended to after the rotation, an append into spare capacity is possible; "eq-cap": no append yet);
+//	          slots 8..13 vote E1,E2,E1,E2,E1,E2 (eth1 data of two deposit logs that differ in their next deposit)
+//	fork      branch: slots 14, 15 vote E1 -> adopted at 15, the block carries the deposit (17000)
+//	          main:   slots 14, 15 vote E2 -> adopted at 15, the block carries the deposit (32000)
+//	          ("vs-rotate": main stays empty until epoch 2 and adopts E2 there)
+//	after every step the other fork's head and the parent are re-observed.
+func (r *recorder) aliasScript(c *chain.Chain, cfg chainCfg) {
+	spec := c.Spec
+	stop := func(what string, err error) bool {
+		if err != nil {
+			r.sum.Stopped = what + ": " + err.Error()
+			return true
+		}
+		return false
+	}
+	stepOn := func(ch *chain.Chain, sc *chain.Scenario, slot common.Slot, vote *common.Eth1Data) error {
+		res := sc.Step(chain.StepPlan{Slot: slot, Block: &chain.BlockPlan{Eth1Vote: vote}, Seed: int64(slot)})
+		return res.Err
+	}
+	sc := chain.NewScenario(c)
+	sc.KeepStates = false
+	if stop("slot 1", stepOn(c, sc, 1, nil)) {
+		return
+	}
+	depKey := chain.KeyID(60)
+	t1, t2 := c.Deposits.Clone(), c.Deposits.Clone()
+	t1.Append(chain.MakeDepositData(spec, c.Keys, chain.DepositSpec{Key: depKey, Amount: 17000}))
+	t2.Append(chain.MakeDepositData(spec, c.Keys, chain.DepositSpec{Key: depKey, Amount: 32000}))
+	e1, e2 := t1.Eth1Data(t1.Count()), t2.Eth1Data(t2.Count())
+	for s := common.Slot(8); s <= 13; s++ {
+		v := &e1
+		if s%2 == 1 {
+			v = &e2
+		}
+		if stop(fmt.Sprintf("slot %d", s), stepOn(c, sc, s, v)) {
+			return
+		}
+	}
+	cb := r.branch(c)
+	cb.Deposits, c.Deposits = t1, t2
+	scb := chain.NewScenario(cb)
+	scb.KeepStates = false
+	for s := common.Slot(14); s <= 15; s++ {
+		if stop(fmt.Sprintf("branch slot %d", s), stepOn(cb, scb, s, &e1)) {
+			return
+		}
+	}
+	if cfg.Script == "fork-deposit-vs-rotate" {
+		// main crosses the epoch boundary first (its context rotates), then adopts E2 in the new voting period
+		for s := common.Slot(16); s <= 20; s++ {
+			if stop(fmt.Sprintf("main slot %d", s), stepOn(c, sc, s, &e2)) {
+				return
+			}
+		}
+	} else {
+		for s := common.Slot(14); s <= 15; s++ {
+			if stop(fmt.Sprintf("main slot %d", s), stepOn(c, sc, s, &e2)) {
+				return
+			}
+		}
+	}
+	// did both forks really append a validator with another effective balance at the same index?
+	bl, ml := r.lines[cb][0], r.lines[c][0]
+	if !bl.dead && !ml.dead {
+		nb, nm := bl.sc.ValidatorCount(), ml.sc.ValidatorCount()
+		if nb == nm && bl.sc.Validator(common.ValidatorIndex(nb-1)).EffectiveBalance != ml.sc.Validator(common.ValidatorIndex(nm-1)).EffectiveBalance {
+			if cfg.Script == "fork-deposit-vs-rotate" {
+				r.sum.Flags["fork-one-deposits-other-rotates-first"]++
+			} else {
+				r.sum.Flags["fork-both-deposit-different-amounts-same-epoch"]++
+			}
+		}
+	}
+	// both forks go on into the next epochs (rotation on both)
+	if stop("branch tail", cb.RunHonest(cb.Slot()+spec.SLOTS_PER_EPOCH+1)) {
+		return
+	}
+	stop("main tail", c.RunHonest(c.Slot()+spec.SLOTS_PER_EPOCH+1))
 }
 
 func b2i(b bool) int {
